@@ -150,6 +150,14 @@ def discharge(F, site):
                            and pt['args'] and psc.unref(sym(fn, pt['args'][0])) == cont]
                 if pushes and not shrinks:
                     return 'D2', 'len() - 1 after a push onto the same vector (which this function never shrinks)'
+            if op == 'Sub' and ty in ('usize', 'u64', 'u16', 'u32') and strip(bb) == ('int', 1):
+                # |x| - 1 under x < 0 (or x != 0): the magnitude of a non-zero number is at least 1
+                a_ = strip(a)
+                if a_[0] == 'call' and a_[1].endswith(('::unsigned_abs',)) and len(a_[2]) == 1:
+                    x_ = strip(a_[2][0])
+                    for f in facts:
+                        if (f[0] in ('Lt', 'Ne') and strip(f[1]) == x_ and strip(f[2]) == ('int', 0)) or (f[0] == 'Gt' and strip(f[1]) == x_ and strip(f[2]) == ('int', 0)):
+                            return 'D1', 'the magnitude of a value known to be non-zero is at least 1'
             if op == 'Sub' and ty in ('usize', 'u64', 'u16', 'u32'):
                 # a - b guarded by b <= a / a >= b / a > b-1
                 for f in facts:
@@ -1499,6 +1507,45 @@ def _pinned_lib():
         return None
 
 
+def feeds_only_debug_assertions(ctx, fn, local):
+    """the value of `local` (a call result) is used for nothing but the condition of debug assertions: every branch it decides
+    is the test in front of a `debug_assert*!` failure"""
+    from rules.shared import LocalFlow
+    if _ALL_SITES[0] is None:
+        _ALL_SITES[0] = psc.census(ctx)
+    lf = LocalFlow(fn)
+    fed = lf.forward(local)
+    das = [s2 for s2 in _ALL_SITES[0] if s2['f'] is fn and s2['kind'] == 'call' and macro_of(s2['span']) in ('debug_assert', 'debug_assert_eq', 'debug_assert_ne')]
+    fail = set()
+    for s2 in das:
+        work = [s2['block']]
+        for _ in range(40):
+            if not work:
+                break
+            x = work.pop()
+            if x in fail:
+                continue
+            fail.add(x)
+            for p_ in fn.pred(x):
+                if fn.term(p_)['k'] == 'goto':
+                    work.append(p_)
+    deciding = [b_ for b_ in range(len(fn.blocks)) if fn.term(b_)['k'] == 'switch' and op_base_local(fn.term(b_).get('op')) in fed]
+    if not deciding:
+        return False
+    for b_ in deciding:
+        if not any(x in fail for x in fn.succ(b_)):
+            # a switch on the value (or on what `&&` made of it) must lead to an assertion failure on one side, or to another
+            # test of the same condition chain
+            if not any(fn.term(x)['k'] == 'switch' and x in deciding for x in fn.succ(b_)):
+                return False
+    # ... and it is not stored, returned or handed to a call with an effect
+    for b_, t_ in fn.calls():
+        if any(op_base_local(a_) in fed for a_ in t_['args']) and not callee_name(t_).startswith(('core::panicking', 'core::fmt')):
+            if fn.local_ty(t_['dest']['local']) not in ('bool', '()'):
+                return False
+    return 0 not in fed
+
+
 def _helper_in_assertion(F, fn, h, closure=None):
     """None: helper h is not spliced into fn; False: it is, but serves more than debug assertions (or is not read-only);
     ('DA', why): every result of it in fn feeds nothing but the test of an acceptable debug assertion.
@@ -1601,8 +1648,8 @@ def developer_assertion(F, s):
         inl = fn.blocks[s['block']].get('inl') or ()
         for h in inl:
             r_ = _helper_in_assertion(F, fn, h)
-            if r_ is not None:
-                return r_ or None
+            if r_:
+                return r_
         # ... or inside a closure written in such a helper (`targets.iter().all(|t| starts[*t])`): the closure is part of the helper,
         # which every function that contains it evaluates only as the condition of a debug assertion
         if '::{closure' in fn.path and not inl:
